@@ -276,6 +276,67 @@ def check_tables(scale, rnd):
         orr.close()
 
 
+def check_hash_collisions():
+    """two different keys with the SAME 32-bit hash but different lengths (found by a deterministic birthday search, for
+    both shipped hash functions usable on bytes): each must be found, with its own value, whichever was added first, and
+    an absent key that collides with a stored one must be absent"""
+    from zlib import crc32
+    from hashlib import md5
+    import struct
+    from whoosh.filedb.filestore import RamStorage
+    from whoosh.filedb.filetables import HashWriter, HashReader
+    st = RamStorage()
+    for hashtype in (0, 1):
+        from whoosh.filedb import filetables as _ft
+        hf = _ft._hash_functions[hashtype]
+        seen = {}
+        import random as _random
+        cr = _random.Random(20260925)
+        for i in range(300000):
+            k = cr.getrandbits(40).to_bytes(5, "big")
+            seen[hf(k) & 0xffffffff] = k
+        pairs = []
+        for i in range(300000):
+            k = cr.getrandbits(56).to_bytes(7, "big")
+            o = seen.get(hf(k) & 0xffffffff)
+            if o is not None and len(o) != len(k):
+                pairs.append((o, k))
+                if len(pairs) >= 3:
+                    break
+        if not pairs:
+            fail("C20-hash-collision-search", "no colliding pair found for hash type %d (harness)" % hashtype)
+            continue
+        for a, b in pairs:
+            for first, second in ((a, b), (b, a)):
+                for absent_probe in (False, True):
+                    counts["cases"] += 1
+                    note_case("collision", hashtype, first, second, absent_probe)
+                    name = "c%d_%d" % (hashtype, counts["cases"])
+
+                    def run():
+                        hw = HashWriter(st.create_file(name), hashtype=hashtype)
+                        hw.add(b"zero", b"0")
+                        hw.add(first, b"F")
+                        if not absent_probe:
+                            hw.add(second, b"S")
+                        hw.add(b"last", b"9")
+                        hw.close()
+                        hr = HashReader.open(st, name)
+                        out = (hr.get(first), hr.get(second), first in hr, second in hr, list(hr.all(second)), sorted(hr.keys()))
+                        hr.close()
+                        return out
+                    ok, r = guarded("C20-hash-collision-exception", run)
+                    if not ok:
+                        continue
+                    if absent_probe:
+                        want = (b"F", None, True, False, [], sorted([b"zero", first, b"last"]))
+                    else:
+                        want = (b"F", b"S", True, True, [b"S"], sorted([b"zero", first, second, b"last"]))
+                    if r != want:
+                        fail("C20-hash-collision", "hashtype %d keys %r then %r (second stored: %s): got %r expected %r"
+                             % (hashtype, first, second, not absent_probe, r, want))
+
+
 # ---------------------------------------------------------------- codecs
 def check_codecs(scale, rnd):
     from whoosh.filedb.filestore import RamStorage
@@ -329,6 +390,34 @@ def check_codecs(scale, rnd):
             ok, r = guarded("C20-growable", ga)
             if ok and r != seq:
                 fail("C20-growable", "GrowableArray %r -> %r" % (seq, r))
+    # extend() with a batch that straddles a storage threshold (some values fit the current typecode, a later one does
+    # not), followed by appends, and written to a file: the array must hold exactly the values given, in order
+    from whoosh.filedb.filestore import RamStorage as _Ram
+    gst = _Ram()
+    for th in (2 ** 8, 2 ** 16, 2 ** 31, 2 ** 32):
+        for batch in ([1, 2, th, 4], [th - 1, th, th + 1], [7] * 5 + [th] + [7] * 3, [th, 1], [0, th - 1]):
+            for pre in ([], [3], [th - 1]):
+                counts["cases"] += 1
+                note_case("growable-extend", th, tuple(batch), tuple(pre))
+                def gx():
+                    g = GrowableArray()
+                    for v in pre:
+                        g.append(v)
+                    g.extend(batch)
+                    g.append(9)
+                    f = gst.create_file("ga")
+                    g.to_file(f)
+                    f.close()
+                    f = gst.open_file("ga")
+                    back = list(f.read_array(g.typecode, len(g))) if g.typecode != "q" or True else None
+                    f.close()
+                    return list(g), back
+                ok, r = guarded("C20-growable-extend", gx)
+                want = pre + batch + [9]
+                if ok and r[0] != want:
+                    fail("C20-growable-extend", "GrowableArray %r extend %r -> %r" % (pre, batch, r[0]))
+                elif ok and r[1] != want:
+                    fail("C20-growable-extend-file", "GrowableArray %r extend %r written as %r" % (pre, batch, r[1]))
     for v in [0, 1, 84, 85, 86, 85 ** 2, 85 ** 5 - 1, 2 ** 32 - 1] + [rnd.randrange(0, 2 ** 32) for _ in range(200)]:
         counts["cases"] += 1
         if from_base85(to_base85(v)) != v:
@@ -482,7 +571,8 @@ def main():
     rnd = random.Random(seed)
     for nm, fn in (("idsets", lambda: check_idsets(scale)), ("tables", lambda: check_tables(scale, rnd)),
                    ("codecs", lambda: check_codecs(scale, rnd)), ("sort", lambda: check_sort(scale, rnd)),
-                   ("compound", lambda: check_compound(scale, rnd)), ("high-offsets", check_high_offsets)):
+                   ("compound", lambda: check_compound(scale, rnd)), ("high-offsets", check_high_offsets),
+                   ("hash-collisions", check_hash_collisions)):
         try:
             fn()
         except Exception:
